@@ -1,6 +1,7 @@
 package ed25519
 
 import (
+	"bytes"
 	"strings"
 	"crypto"
 	"fmt"
@@ -818,6 +819,102 @@ func jobC06(c *rt.Ctx) {
 						c.Distinct(fmt.Sprintf("nd %d %d %d %d %d", n, p, ki, form, force), true)
 						checkBatch(c, "level-near-dup", es, ks, o.vs, o.zip, (n+p+ki)%2, fmt.Sprintf("nd-%d-%d", n, p))
 					}
+				}
+			}
+		}
+	}
+	// level crossed: an entry that would satisfy the equation under a MIXED-UP reading - the point of the
+	// previous / next / first entry's key (or the base point, or the neutral element) with its own key
+	// bytes in the hash; its own key with the neighbour's message in the hash; a key that differs from
+	// the neighbour's in the sign bit or in the top bits of byte 0 only. Shortcuts that reuse a
+	// decompressed point or a hash for "the same" key / entry must agree with single verification.
+	c.Require("level-crossed")
+	type crossKind struct {
+		name string
+		mk   func(es []triple, p int, vs variantSpec) triple
+	}
+	scalarOfSlot := func(slot int) *big.Int {
+		a, _ := ref.ExpandSeed(seedOf(5000 + slot%24))
+		return a
+	}
+	flip := func(k []byte, byteIx int, mask byte) []byte {
+		o := append([]byte{}, k...)
+		o[byteIx] ^= mask
+		return o
+	}
+	crossKinds := []crossKind{
+		{"prev-point/own-key-bytes", func(es []triple, p int, vs variantSpec) triple {
+			return crossTriple(scalarOfSlot(p-1), es[p].key, es[p].msg, es[p].msg, int64(p), vs)
+		}},
+		{"prev-point/prev-key-sign-flipped", func(es []triple, p int, vs variantSpec) triple {
+			return crossTriple(scalarOfSlot(p-1), flip(es[p-1].key, 31, 0x80), es[p].msg, es[p].msg, int64(p), vs)
+		}},
+		{"prev-point/prev-key-byte0-bit6", func(es []triple, p int, vs variantSpec) triple {
+			return crossTriple(scalarOfSlot(p-1), flip(es[p-1].key, 0, 0x40), es[p].msg, es[p].msg, int64(p), vs)
+		}},
+		{"prev-point/prev-key-byte0-bit7", func(es []triple, p int, vs variantSpec) triple {
+			return crossTriple(scalarOfSlot(p-1), flip(es[p-1].key, 0, 0x80), es[p].msg, es[p].msg, int64(p), vs)
+		}},
+		{"prev-point/prev-key-byte31-bit0", func(es []triple, p int, vs variantSpec) triple {
+			return crossTriple(scalarOfSlot(p-1), flip(es[p-1].key, 31, 0x01), es[p].msg, es[p].msg, int64(p), vs)
+		}},
+		{"next-point/own-key-bytes", func(es []triple, p int, vs variantSpec) triple {
+			return crossTriple(scalarOfSlot(p+1), es[p].key, es[p].msg, es[p].msg, int64(p), vs)
+		}},
+		{"first-point/own-key-bytes", func(es []triple, p int, vs variantSpec) triple {
+			return crossTriple(scalarOfSlot(0), es[p].key, es[p].msg, es[p].msg, int64(p), vs)
+		}},
+		{"base-point/own-key-bytes", func(es []triple, p int, vs variantSpec) triple {
+			return crossTriple(big.NewInt(1), es[p].key, es[p].msg, es[p].msg, int64(p), vs)
+		}},
+		{"neg-base-point/own-key-bytes", func(es []triple, p int, vs variantSpec) triple {
+			return crossTriple(new(big.Int).Sub(ref.L, big.NewInt(1)), es[p].key, es[p].msg, es[p].msg, int64(p), vs)
+		}},
+		{"base-point/prev-key-bytes", func(es []triple, p int, vs variantSpec) triple {
+			return crossTriple(big.NewInt(1), es[p-1].key, es[p].msg, es[p].msg, int64(p), vs)
+		}},
+		{"neg-base-point/prev-key-bytes", func(es []triple, p int, vs variantSpec) triple {
+			return crossTriple(new(big.Int).Sub(ref.L, big.NewInt(1)), es[p-1].key, es[p].msg, es[p].msg, int64(p), vs)
+		}},
+		{"neutral-point/prev-key-bytes", func(es []triple, p int, vs variantSpec) triple {
+			return crossTriple(big.NewInt(0), es[p-1].key, es[p].msg, es[p].msg, int64(p), vs)
+		}},
+		{"neutral-point/own-key-bytes", func(es []triple, p int, vs variantSpec) triple {
+			return crossTriple(big.NewInt(0), es[p].key, es[p].msg, es[p].msg, int64(p), vs)
+		}},
+		{"own-point/prev-key-bytes-hashed", func(es []triple, p int, vs variantSpec) triple {
+			t := crossTriple(scalarOfSlot(p), es[p-1].key, es[p].msg, es[p].msg, int64(p), vs)
+			t.key = append([]byte{}, es[p].key...)
+			return t
+		}},
+		{"own-key/prev-message-hashed", func(es []triple, p int, vs variantSpec) triple {
+			return crossTriple(scalarOfSlot(p), es[p].key, es[p-1].msg, es[p].msg, int64(p), vs)
+		}},
+		{"own-key/first-message-hashed", func(es []triple, p int, vs variantSpec) triple {
+			return crossTriple(scalarOfSlot(p), es[p].key, es[0].msg, es[p].msg, int64(p), vs)
+		}},
+	}
+	for _, n := range []int{5, 8, 70} {
+		for _, p := range []int{1, 2, 3, 63, 64, 65, 68} {
+			if p+1 >= n {
+				continue
+			}
+			for ki, ck := range crossKinds {
+				for oi, o := range opts {
+					if !c.Thorough() && (ki+p+n)%len(opts) != oi {
+						continue
+					}
+					if !c.Take() {
+						continue
+					}
+					es, ks := build(n, nil, o.vs)
+					if o.vs.v != ref.Ph && bytes.Equal(es[p].msg, es[p-1].msg) {
+						es[p] = honestTriple(5000+p%24, []byte(fmt.Sprintf("crossed-%d", p)), o.vs)
+					}
+					es[p], ks[p] = ck.mk(es, p, o.vs), "crossed:"+ck.name
+					c.Class("level-crossed")
+					c.Distinct(fmt.Sprintf("crossed %d %d %d %d", n, p, ki, oi), true)
+					checkBatch(c, "level-crossed", es, ks, o.vs, o.zip, (n+p+ki)%2, fmt.Sprintf("cross-%d-%d", n, p))
 				}
 			}
 		}
